@@ -23,7 +23,7 @@ TReset == /\ Is("Reset") /\ Adv
           /\ last' = [t \in Types |-> <<>>] /\ bad' = {}
 
 TWrite == /\ Is("Write") /\ Adv
-          /\ Write(Ev.type, [fill |-> Ev.fill, len |-> Ev.len], FileOf(Ev.seen))
+          /\ Write(Ev.type, [fill |-> Ev.fill, len |-> Ev.len], FileOf(Ev.ret), FileOf(Ev.seen))
 
 TNext == TReset \/ TWrite
 Report == (bad' \cap Enforce # {}) => PrintT(<<"BAD", bad' \cap Enforce, l>>)
